@@ -365,7 +365,7 @@ ROUND5 = {
     "C12": " Round 5: likelihood batch shapes with a non-leading unit dimension in the quick lattice.",
     "C13": " Round 5: part bigrules - rule sizes 48..128 given by constructor / setting / likelihood, float64 and float32, mean / sd cells, degree classes up to 2n-1 (BigRulesOK, BigNodesOK, BigCountOK; a rule keeping fewer nodes than requested is rejected), light replay against exact Gaussian moments.",
     "C14": " Round 5: part qu - class / conditioning of q(u) (near-prior, diagonal, dense, ill-conditioned) x number of inducing points below / above the Lanczos cap for every strategy x distribution (QuConverges, QuCover; the precision solve capped by the Lanczos setting is rejected), replayed at tight solver settings.",
-    "C18": " Round 5: state_dict cells name their failure mode (raises-on-load / carrier missing from the state_dict / loads silently but differs), carrier kind npbuf (non-persistent buffer) and lazily registered persistent buffers with receiver histories fresh / called / used, a carrier inventory per cell, a mean-only observable, LoadDropsCaches.",
+    "C18": " Round 5: state_dict cells name their failure mode (raises-on-load / carrier missing from the state_dict / loads silently but differs), carrier kind npbuf (non-persistent buffer) and lazily registered persistent buffers with receiver histories fresh / called / used, a carrier inventory per cell, a mean-only observable, LoadDropsCaches. Round 6: deep-kernel families (learned feature map + the library's ScaleToBounds, whose running input range lives in buffers rewritten by training-mode calls and read in evaluation mode; with a dense kernel and with KISS-GP on the scaled features).",
     "C16": " Round 5: part layout - the covariance order of a multitask distribution (interleaved / task by task) x batch rank under mask (LayoutPaired: every selected mean entry is paired with the variance of the same (point, task) cell; recognising a task-major distribution by the rank of its mean is rejected), replayed on hand-built distributions with per-task noises.",
     "C19": " Round 5: the geometry of the inputs is a dimension of the call lattice (rows shared between two different tensors, r = 0 exactly, incl. diag=True cross-covariances; far-offset inputs with more than 25 rows on a side: KCGeomOK, KCCentredOK).",
     "C20": " Round 6: the library-operation sweep constructs every kernel class in one settings context and uses it in another (inside user blocks; objects built inside a block used after it) for dense / diagonal / forward / cross requests. Round 5: the recorded-trace validation caps the number of replay traces per TLC run (stride sample) so that it finishes under load.",
